@@ -103,6 +103,12 @@ def rule_grammar_literals(ctx: Ctx, rid="C05.GRAMMAR-LITERAL"):
                 got = got.replace(f"{pn}[{i_}]", f"p.{s_}").replace(f"{pn}[{i_ - len(p.syms)}]", f"p.{s_}")
         got = got.replace(f"{pn}.", "p.") if pn != "p" else got
         exp = f"-{want}" if "MINUS" in p.syms else want
+        core = r.operand if isinstance(r, ast.UnaryOp) and isinstance(r.op, ast.USub) else r
+        if got != exp and isinstance(core, ast.Call):
+            # the token's conversion (or part of it) is applied here instead of in the lexer: what value comes out is decided
+            # end to end by LITERAL-VALUES / TOKEN-CONV on the real actions, not by the spelling of this return
+            ctx.rep.note(f"language/grammar.py:{p} returns {got[:60]}: a call on the token value, left to LITERAL-VALUES")
+            continue
         ctx.rep.check(got == exp, rid, f"language/grammar.py:{p}", f"returns {got}" if got == exp else f"returns {got}, expected {exp}",
                       site=p.site, text=f"{p} -> {got}")
     if n < 5:
